@@ -18,6 +18,12 @@ RULE = ("random valid screens (arity 1-3, 0..n_max rows, non-ASCII/astral/empty/
         "doses incl. -0.0/subnormal/1e300, observation bit patterns incl. NaN payloads, -0.0, inf, any plate-uniform mask or none), "
         "35% with a mapping batchie produced for a strict superset of the rows; saved and loaded 1..4 times through real h5 files; "
         "ExperimentSpace.from_screen saved/loaded 1..4 times; string tables through np.char.encode + h5 + np.char.decode. "
+        "Memory layout: 70% of the screens with arity >= 2 (40% otherwise) are built from arrays that hold the same values but are "
+        "not plain C-contiguous arrays: Fortran order, vstack(...).T, pandas to_numpy(), strided views, negative strides, slices "
+        "of a wider Fortran parent with <U24 names, boolean row index into a parent (as the hold-out does), read-only arrays; "
+        "oracle: the screen equals its C-ordered twin's observables before and after every cycle, tie: the twin's driver line. "
+        "12% carry mappings whose extra names are longer than every row name (>= 2 cycles). A fixed corpus (zero-row witness, "
+        "every layout on a position-sensitive screen, long mapping names) runs first on every invocation. "
         "Non-trivial: >= 2 rows and (superset mapping or non-ASCII name or both observed and unobserved plates).")
 
 OBS_VALUES = [0.0, -0.0, 1.0, 0.5, 0.25, 0.1, 0.3333333333333333, 1e-300, 5e-324, 1e300, 2.0, -1.5, float("inf"),
@@ -26,6 +32,9 @@ NAN_BITS = [0x7FF8000000000000, 0x7FF8000000000001, 0xFFF8000000000000, 0x7FF400
 
 ZERO_ROW = "C02:zero-row-screen"
 
+
+LAYOUTS = ["fortran", "vstackT", "pandas", "strided", "negstride", "parent-slice", "holdout-index", "readonly"]
+LONG_NAMES = ["a_very_long_treatment_name_" + "\u00e9" * 5, "x" * 33, "long name \U0001F600 0123456789 0123456789"]
 
 # deterministic corpus, run first on every invocation
 CORPUS = [
@@ -42,6 +51,130 @@ CORPUS = [
                  pnames=["p1", "p1", "p2", "p2"], obs=[0.1, 0.2, 0.3, 0.4], mask=[True, True, False, False],
                  tmap=(["a", "b", "c", "d"], [1.0, 1.0, 1.0, 1.0], [0, 1, 2, 3]), smap=(["s0", "s1", "s2"], [0, 1, 2]))},
 ]
+_ASYM = dict(ctrl="control", arity=2, tnames=[["a", "b"], ["c", "dd"], ["\u00e9", "control"], ["b", "a"]],
+             tdoses=[[1.0, 2.0], [3.0, 0.5], [0.25, 0.0], [2.0, 1.0]], snames=["s1", "s2", "s1", "s3"],
+             pnames=["p1", "p1", "p2", "p2"], obs=[0.1, 0.2, 0.3, 0.4], mask=[True, True, False, False], tmap=None, smap=None)
+# every non-default layout on a screen whose cells differ by (row, col) position (a transposed/ravelled save shows)
+CORPUS += [{"kind": "corpus-layout-" + lay, "cycles": 2, "layout": lay, "raw": dict(_ASYM)} for lay in LAYOUTS]
+CORPUS.append({"kind": "corpus-long-mapping-names", "cycles": 3, "layout": "fortran",
+               "raw": dict(_ASYM, tmap=(["a", "b", "c", "control", "dd", LONG_NAMES[0], "\u00e9", LONG_NAMES[1]],
+                                        [1.0, 2.0, 3.0, 0.0, 0.5, 1.0, 0.25, 2.0], [0, 1, 2, -1, 3, 4, 5, 6]),
+                           smap=(["s1", "s2", "s3", LONG_NAMES[2]], [0, 1, 2, 3]))})
+
+
+
+
+def _two_d(x, layout, rng_bits):
+    """the same (n, a) values in a non-default memory layout"""
+    n, a = x.shape
+    if layout in ("fortran", "readonly"):
+        return np.asfortranarray(x)
+    if layout == "vstackT":
+        return np.vstack([x[:, i] for i in range(a)]).T if a else x
+    if layout == "strided":
+        big = np.repeat(np.repeat(x, 2, axis=0), 2, axis=1)
+        return big[::2, ::2]
+    if layout == "negstride":
+        return np.ascontiguousarray(x[::-1, ::-1])[::-1, ::-1]
+    if layout == "parent-slice":
+        # a slice of a wider parent (extra rows and columns around it), Fortran ordered
+        pad = np.empty((n + 3, a + 2), dtype=x.dtype)
+        pad[...] = x.dtype.type("junk") if x.dtype.kind == "U" else -7.0
+        pad = np.asfortranarray(pad)
+        pad[2:2 + n, 1:1 + a] = x
+        return pad[2:2 + n, 1:1 + a]
+    if layout == "holdout-index":
+        # what create_*_holdout does: boolean row index into a (Fortran ordered) parent
+        sel = np.zeros(2 * n + 1, dtype=bool)
+        sel[1:2 * n:2] = True
+        parent = np.empty((2 * n + 1, a), dtype=x.dtype)
+        parent[...] = x.dtype.type("junk") if x.dtype.kind == "U" else -7.0
+        parent = np.asfortranarray(parent)
+        parent[sel] = x
+        return parent[sel]
+    return x
+
+
+def _one_d(x, layout):
+    n = x.shape[0]
+    if layout in ("fortran", "strided", "vstackT", "readonly"):
+        return np.repeat(x, 2)[::2]
+    if layout == "negstride":
+        return np.ascontiguousarray(x[::-1])[::-1]
+    if layout == "parent-slice":
+        pad = np.concatenate([x[:1] if n else x, x, x[:2]])
+        return pad[1 if n else 0:(1 if n else 0) + n]
+    if layout == "holdout-index":
+        sel = np.zeros(2 * n + 1, dtype=bool)
+        sel[1:2 * n:2] = True
+        parent = np.empty(2 * n + 1, dtype=x.dtype)
+        parent[sel] = x
+        return parent[sel]
+    return x
+
+
+def build_layout(raw, layout):
+    """the real Screen for `raw`, built from arrays that hold the same values as S.build's but are not plain
+    C-contiguous arrays of the minimal dtype"""
+    from batchie.data import Screen
+    if layout in (None, "c") or len(raw["snames"]) == 0:
+        return S.build(raw)
+    n, a = len(raw["snames"]), raw["arity"]
+    tn = np.array(raw["tnames"], dtype=str).reshape(n, a)
+    td = np.array(raw["tdoses"], dtype=float).reshape(n, a)
+    sn = np.array(raw["snames"], dtype=str)
+    pn = np.array(raw["pnames"], dtype=str)
+    obs = None if raw["obs"] is None else np.array(raw["obs"], dtype=float)
+    mask = None if raw["mask"] is None else np.array(raw["mask"], dtype=bool)
+    if layout == "pandas":
+        import pandas as pd
+        cols = ["c%d" % i for i in range(a)]
+        tn = pd.DataFrame({c: tn[:, i] for i, c in enumerate(cols)})[cols].to_numpy().astype(str).reshape(n, a) if a else tn
+        td = pd.DataFrame({c: td[:, i] for i, c in enumerate(cols)})[cols].to_numpy().reshape(n, a) if a else td
+        df = pd.DataFrame({"s": sn, "p": pn})
+        sn, pn = df["s"].to_numpy().astype(str), df["p"].to_numpy().astype(str)
+        if obs is not None:
+            df2 = pd.DataFrame({"o": obs, "z": obs})
+            obs = df2[["z", "o"]].to_numpy()[:, 1]
+    else:
+        if layout in ("parent-slice", "holdout-index", "readonly"):
+            tn, sn, pn = tn.astype("<U24"), sn.astype("<U24"), pn.astype("<U24")      # wider dtype than the names need
+        tn, td = _two_d(tn, layout, 0), _two_d(td, layout, 0)
+        sn, pn = _one_d(sn, layout), _one_d(pn, layout)
+        if obs is not None:
+            obs = _one_d(obs, layout)
+        if mask is not None:
+            mask = _one_d(mask, layout)
+    arrays = [tn, td, sn, pn] + ([obs] if obs is not None else []) + ([mask] if mask is not None else [])
+    if layout == "readonly":
+        for x in arrays:
+            x.setflags(write=False)
+    kw = dict(treatment_names=tn, treatment_doses=td, sample_names=sn, plate_names=pn, control_treatment_name=raw["ctrl"])
+    if obs is not None:
+        kw["observations"] = obs
+    if mask is not None:
+        kw["observation_mask"] = mask
+    if raw.get("tmap") is not None:
+        kw["treatment_mapping"] = (np.array(raw["tmap"][0], dtype=str), np.array(raw["tmap"][1], dtype=float), np.array(raw["tmap"][2], dtype=int))
+    if raw.get("smap") is not None:
+        kw["sample_mapping"] = (np.array(raw["smap"][0], dtype=str), np.array(raw["smap"][1], dtype=int))
+    return Screen(**kw)
+
+
+def long_superset_mappings(rng, raw):
+    """mappings batchie produces for a superset whose extra names are LONGER than every name of the rows"""
+    extra = rng.randint(1, 3)
+    a = raw["arity"]
+    big = dict(raw)
+    big["tnames"] = raw["tnames"] + [[rng.choice(LONG_NAMES) for _ in range(a)] for _ in range(extra)]
+    big["tdoses"] = raw["tdoses"] + [[rng.choice([1.0, 2.5, 0.1]) for _ in range(a)] for _ in range(extra)]
+    big["snames"] = raw["snames"] + [rng.choice(LONG_NAMES) for _ in range(extra)]
+    big["pnames"] = raw["pnames"] + ["zzz_extra"] * extra
+    if raw["obs"] is not None:
+        big["obs"] = raw["obs"] + [0.5] * extra
+        big["mask"] = None if raw["mask"] is None else raw["mask"] + [True] * extra
+    s = S.build(big)
+    return tuple(list(x) for x in s.treatment_mapping), tuple(list(x) for x in s.sample_mapping)
 
 
 def unobserved_counts(s):
@@ -117,13 +250,25 @@ def gen_case(rng, n_max):
         i = rng.randrange(len(raw["obs"]))
         raw["obs"][i] = S.from_bits(rng.choice(NAN_BITS))
     kind = "fresh"
-    if rng.random() < 0.35:
+    cycles = 1 + rng.randint(0, 3)
+    x = rng.random()
+    if x < 0.30:
         try:
             raw["tmap"], raw["smap"] = S.superset_mappings(rng, raw)
             kind = "superset-mapping"
         except Exception:
             pass
-    return {"kind": kind, "raw": raw, "cycles": 1 + rng.randint(0, 3)}
+    elif x < 0.42:
+        try:
+            raw["tmap"], raw["smap"] = long_superset_mappings(rng, raw)
+            kind = "superset-mapping"
+            cycles = 2 + rng.randint(0, 2)
+        except Exception:
+            pass
+    layout = "c"
+    if raw["snames"] and rng.random() < (0.7 if raw["arity"] >= 2 else 0.4):
+        layout = rng.choice(LAYOUTS)
+    return {"kind": kind, "raw": raw, "cycles": cycles, "layout": layout}
 
 
 def obs_bits_list(raw):
@@ -139,8 +284,17 @@ def run_screen_case(case, tmp, res, check=True):
     if case.get("obs_bits") is not None:
         raw = dict(raw)
         raw["obs"] = [S.from_bits(b) for b in case["obs_bits"]]
-    s0 = S.build(raw)
+    layout = case.get("layout", "c")
+    s0 = build_layout(raw, layout)
     want = observables(s0)
+    if layout != "c":
+        # same values, other memory layout: the screen must be what the plain C-ordered arrays give
+        twin = observables(S.build(raw))
+        d = first_diff(twin, want)
+        if d is not None:
+            res.fail("the constructed screen depends on the memory layout of the input arrays", case,
+                     {"field": d[0], "layout": layout, "got": d[2]}, {"field": d[0], "c_ordered_twin": d[1]})
+        want = twin
     fn = os.path.join(tmp, "s.h5")
     cur = s0
     out = None
@@ -245,7 +399,8 @@ def run(ctx, res):
         for t in range(-len(CORPUS), n_cases):
             if t < 0:
                 # fixed corpus first: the zero-row witness (hold-out with fraction 0) is exercised on every run
-                case = {"kind": CORPUS[t]["kind"], "raw": dict(CORPUS[t]["raw"]), "cycles": CORPUS[t]["cycles"]}
+                case = {"kind": CORPUS[t]["kind"], "raw": dict(CORPUS[t]["raw"]), "cycles": CORPUS[t]["cycles"],
+                        "layout": CORPUS[t].get("layout", "c")}
             else:
                 case = gen_case(rng, n_max)
             case["obs_bits"] = obs_bits_list(case["raw"])
@@ -253,6 +408,7 @@ def run(ctx, res):
             res.evaluations += 1
             res.count("kind." + case["kind"])
             res.count("cycles.%d" % case["cycles"])
+            res.count("layout." + case.get("layout", "c"))
             res.count("rows.%s" % ("0" if not raw["snames"] else "1-5" if len(raw["snames"]) <= 5 else "6+"))
             try:
                 line, out, s0 = run_screen_case(case, tmp, res)
